@@ -43,6 +43,9 @@ type ProgCfg struct {
 	// Views: some stage inputs are structs mirroring the outputs of an
 	// earlier stage (whole calls get bound to them).
 	Views bool
+	// KeyedMapBias: most calls that can be map calls are, and most of those
+	// split over typed maps (runs that are about fork names).
+	KeyedMapBias bool
 	// MapOnlyInTop: map calls appear only in the body of the pipeline the
 	// top-level call invokes.
 	MapOnlyInTop bool
@@ -1130,6 +1133,9 @@ func (g *pgen) genCallBindings(c *Call) {
 	if g.prog.Pipeline(c.Callee) != nil {
 		mapOdds = 0 // pipelines that may be mapped at all are few: map them
 	}
+	if g.cfg.KeyedMapBias {
+		mapOdds = 0
+	}
 	if mayMap && rapid.IntRange(0, mapOdds).Draw(t, "mapCall") == 0 {
 		mapShape, mapKind, splitIdx = g.genMapSources(c, ins)
 	}
@@ -1620,7 +1626,8 @@ func (g *pgen) genMapSources(c *Call, ins []Param) (shape, kind string, idx map[
 	if in.Flag || (first == g.reserved && g.reserved >= 0) {
 		return "", "", idx
 	}
-	wantMap := in.T.Map == 0 && in.T.Base != "map" && rapid.IntRange(0, 2).Draw(t, "overMap") == 0
+	overMap := rapid.IntRange(0, 2).Draw(t, "overMap")
+	wantMap := in.T.Map == 0 && in.T.Base != "map" && (overMap == 0 || g.cfg.KeyedMapBias && overMap == 1)
 	if _, outs, isStage := g.prog.Callable(c.Callee); wantMap {
 		for _, o := range outs {
 			if o.T.Map > 0 || o.T.Base == "map" {
